@@ -885,6 +885,14 @@ def nonlinear_round_trip(rng) -> tuple[list[Failure], int]:
     the shock at the same date (unanticipated, or anticipated in the first period), recover shock and path"""
     from harness import C06
     spec = C06.gen_model(rng, rng.choice(["nonlinear", "nonlinear", "linear"]))
+    # C07 uses the single-variant, current-dated-shock core of C06's generator: parameter variants, lagged shocks and
+    # deep exogenous shifts are C06's own test classes (lagged shocks are mistimed by the first-order guess/terminal,
+    # see the KNOWN-FINDING of C01) and would only add noise to the swap round trip
+    spec["nv"] = 1
+    spec["rho_v"] = spec["rho_v"][:1]
+    for e_ in spec["eqs"]:
+        e_["sl"] = None
+        e_["ws"] = 0
     cand = [i for i in range(spec["n"]) if spec["eqs"][i]["shock"]]
     i = rng.choice(cand)
     T = rng.randint(2, 7)
